@@ -284,7 +284,7 @@ add("C02", "p02::write_init", Q, 300, 4, inputs="none (initial state of the indu
 
 # ---------------------------------------------------------------------------------------- C03
 C03_B = "zlink to_slice vs serde_json::to_writer on the same value, every buffer capacity 0..=%d"
-def c03(name, tiers, n, inputs, timeout=1800, mem=12, flavour="std", body=None):
+def c03(name, tiers, n, inputs, timeout=1800, mem=16, flavour="std", body=None):
     add("C03", "p03::" + name, tiers, timeout, mem, build="prod", body=body or ("crate::p03::" + name), unwind=n + 2,
         inputs=inputs + "; buffer capacity symbolic", bound=C03_B % n, role=name, flavour=flavour)
 
@@ -458,7 +458,7 @@ C06_CHAIN_QUICK = {(1, 0, True), (2, 1, True), (3, 5, False), (2, 2, False)}
 for n in (1, 2, 3):
     for pfx in range(4 ** (n - 1)):
         for send in (False, True):
-            add("C06", "p06::chain_counts_n%d_f%02d_%s" % (n, pfx, "send" if send else "enq"), Q if (n, pfx, send) in C06_CHAIN_QUICK else T, 1200, 10, build="mid",
+            add("C06", "p06::chain_counts_n%d_f%02d_%s" % (n, pfx, "send" if send else "enq"), Q if (n, pfx, send) in C06_CHAIN_QUICK else T, 1200, 14, est_gb=(9 if send else 4), build="mid",
                 body="crate::p06::chain_counts::<%d, %d, %s>" % (n, pfx, "true" if send else "false"), unwind=162,
                 inputs="chain of %d Call<Empty> on a fresh connection; flags of the first %d call(s) fixed to %s, flags (oneway, more) of the last call symbolic%s" % (
                     n, n - 1, " ".join(flagtxt(pfx >> (2 * i) & 3) for i in range(n - 1)) or "-", "; then send() polled once and the stream polled once against a peer that never answers" if send else ""),
